@@ -122,10 +122,11 @@ def check_automaton(chk, rule, prog, eff, cache, CS):
         for t, truth, _ in pa.facts:
             if t[0] == "icmp" and t[1] == "eq" and t[3] == ("c", 0) and isinstance(t[2], tuple) and t[2][0] == "ld" and t[2][2] == size_off:
                 empty = truth
-        flag_cf = any(e.kind == "store" and ptr_key(e.args[0])[1] == cf_off and e.args[1] == ("c", 1) for e in evs)
-        flag_se = any(e.kind == "store" and ptr_key(e.args[0])[1] == se_off and e.args[1] == ("c", 1) for e in evs)
+        CTX = ("arg", ci)
+        flag_cf = any(e.kind == "store" and ptr_key(e.args[0]) == (CTX, cf_off) and e.args[1] == ("c", 1) for e in evs)
+        flag_se = any(e.kind == "store" and ptr_key(e.args[0]) == (CTX, se_off) and e.args[1] == ("c", 1) for e in evs)
         attach = [e.callee for e in evs if e.kind == "call" and e.callee in ("cbor_array_push", "_cbor_map_add_key", "_cbor_map_add_value", "cbor_tag_set_item")]
-        root = any(e.kind == "store" and ptr_key(e.args[0])[1] == root_off and e.args[1] == ITEM for e in evs)
+        root = any(e.kind == "store" and ptr_key(e.args[0]) == (CTX, root_off) and e.args[1] == ITEM for e in evs)
         pops = [e for e in evs if e.kind == "call" and e.callee == "_cbor_stack_pop"]
         rec_calls = [e for e in evs if e.kind == "call" and e.callee == app.name]
         closes = bool(pops) and len(rec_calls) == 1 and TOP is not None and rec_calls[0].args[0] == TOP
@@ -434,7 +435,7 @@ def run(ctx, chk):
         if tys is None and excluded is not None and parents <= excluded:
             ndef += 1
             dec = [e for e in pa.calls("cbor_decref") if e.extra and e.extra["pointee"][0] == ("arg", 0)]
-            se = any(e.kind == "store" and ptr_key(e.args[0])[1] == se_off and e.args[1] == ("c", 1) for e in pa.events)
+            se = any(e.kind == "store" and ptr_key(e.args[0])[1] == se_off and isinstance(ptr_key(e.args[0])[0], tuple) and ptr_key(e.args[0])[0][0] == "arg" and e.args[1] == ("c", 1) for e in pa.events)
             inserted = [e for e in pa.events if e.kind == "call" and e.callee in O.TAKES_REF]
             ok = len(dec) == 1 and se and not inserted
             chk.ob("C02.default-arm", "_cbor_builder_append path %d: no legal parent -> release + syntax error" % k, ok, "%s:%d" % (app.file, app.line),
@@ -457,7 +458,7 @@ def run(ctx, chk):
     for k, pa in enumerate(cache.get(bf.name)):
         pops = pa.calls("_cbor_stack_pop")
         apps = pa.calls("_cbor_builder_append")
-        se = any(e.kind == "store" and ptr_key(e.args[0])[1] == se_off and e.args[1] == ("c", 1) for e in pa.events)
+        se = any(e.kind == "store" and ptr_key(e.args[0])[1] == se_off and isinstance(ptr_key(e.args[0])[0], tuple) and ptr_key(e.args[0])[0][0] == "arg" and e.args[1] == ("c", 1) for e in pa.events)
         TOP, _REC, empty, parity = frame_facts(prog, pa)
         if pops or apps:
             tys_, _iw, _fw, fl = CS.summary(bf, pa, TOP) if TOP is not None else (set(), set(), set(), set())
@@ -520,4 +521,19 @@ def run(ctx, chk):
                                    "with C05")
     from props.c05 import check_no_silent_drop
     check_no_silent_drop(chk, "C02.no-silent-drop", prog, eff)
+    chk.rule("C02.insert-refusal", "well-formed input is accepted: the insertion routines the builder relies on refuse only when an "
+             "allocation failed, an overflow guard answered false or a definite container is full - not for a reason of their own "
+             "such as the content of a chunk (shared with C12.refusal-justified)")
+    from props.c12 import check_insert_refusal
+    check_insert_refusal(chk, "C02.insert-refusal", prog, eff, O.PathCache(prog, eff))
+    chk.rule("C02.capacity-field", "the tree the builder fills is well-formed storage: a block installed as a container's storage comes "
+             "with its element capacity (the very count of the request) and still covers the elements counted so far "
+             "(shared with C12; an element stored beyond the real block is lost at the next reallocation)")
+    from props.c12 import check_capacity_field
+    check_capacity_field(chk, "C02.capacity-field", prog, eff, O.PathCache(prog, eff))
+    chk.rule("C02.narrowing", "no 64-bit quantity is converted to a narrower integer type except to take one byte of it for the "
+             "output buffer or below a range test that makes the conversion lossless (declared element counts decide when a definite container is complete; a count kept in 32 bits is "
+             "tracked modulo 2^32)")
+    import rules as _rn
+    _rn.check_narrowing(chk, "C02.narrowing", prog, eff=eff)
     chk.exhaustive = True
